@@ -294,6 +294,20 @@ func c19FSReplay(i int, raw json.RawMessage) Result {
 					return *r
 				}
 			}
+			// symbolic links are followed, by Exists as by Open: a link to a directory or to nothing is no template
+			os.Mkdir(filepath.Join(dir, "zdir"), 0o755)
+			os.Symlink(filepath.Join(dir, "zdir"), filepath.Join(dir, "lnkdir"))
+			os.Symlink(filepath.Join(dir, "nowhere"), filepath.Join(dir, "dangling"))
+			os.WriteFile(filepath.Join(dir, "ztarget"), []byte("v1:ztarget"), 0o644)
+			os.Symlink(filepath.Join(dir, "ztarget"), filepath.Join(dir, "lnkfile"))
+			for _, e := range []struct {
+				rel, content string
+				exists       bool
+			}{{"lnkdir", "", false}, {"dangling", "", false}, {"lnkfile", "v1:ztarget", true}} {
+				if r := step("symbolic link", e.rel, e.exists, e.content); r != nil {
+					return *r
+				}
+			}
 			os.RemoveAll(dir)
 		}
 	}
